@@ -729,6 +729,9 @@ func (d *Data) GetMask(ctx *datastore.VersionedCtx, subvol *dvid.Subvolume) ([]b
 	}
 
 	// Allocate the mask volume.
+	if n := subvol.NumVoxels(); n < 0 || n > server.MaxDataRequest {
+		return nil, fmt.Errorf("requested mask of %s voxels exceeds this DVID server's set limit (%d)", subvol.Size(), server.MaxDataRequest)
+	}
 	data := make([]uint8, subvol.NumVoxels())
 	size := subvol.Size()
 	nx := size.Value(0)
